@@ -263,6 +263,9 @@ def units(tier):
         for sizes in ([(1, 1), (2, 1)] if tier == "quick" else [(1, 1), (2, 1), (1, 1, 1)]):
             for limit in (False, True):
                 us.append(("unit_rate", (m, sizes, "ranks", limit, True)))
+        # one team beyond four members, no outcome vector (a single order), clamp on and off
+        for limit in (False, True):
+            us.append(("unit_rate", (m, (5, 1), "none", limit, False)))
         # the other two ways of giving the outcome run through their own code in rate()
         for vec in ("scores", "none"):
             for limit in (False, True):
